@@ -502,11 +502,11 @@ fn run_probe(ctx: &Ctx) -> SubReport {
         Ok(o) => {
             let err = String::from_utf8_lossy(&o.stderr).to_string();
             if err.contains("cannot be sent between threads safely") || err.contains("cannot be shared between threads safely") || err.contains("E0277") {
-                let v = vec![viol("send_generic", "send_generic.auto_trait_lost", format!("the generic Send/Sync probe no longer type-checks:\n{}", &err[..err.len().min(1500)]))];
+                let v = vec![viol("send_generic", "send_generic.auto_trait_lost", format!("the generic Send/Sync probe no longer type-checks:\n{}", clip(&err, 1500)))];
                 let path = write_replay(ctx, "send_generic", &Value::String(err.clone()), &v);
                 r.failure = Some(Failure { case: Value::String(err), violations: v, replay_path: Some(path) });
             } else {
-                r.notes.push(format!("send probe did not build for another reason (treated as infrastructure): {}", &err[..err.len().min(300)]));
+                r.notes.push(format!("send probe did not build for another reason (treated as infrastructure): {}", clip(&err, 300)));
             }
         }
         Err(e) => r.notes.push(format!("cannot run cargo for the send probe: {}", e)),
